@@ -217,7 +217,15 @@ func (dp *DPoVP) saveNewBlock(block *types.Block) error {
 		dp.onCurrentChanged(oldCurrent, dp.CurrentBlock())
 	} else {
 		// 该块插入到了其他分支上，把该block中的交易push到本分支状态的交易池中
-		dp.txPool.AddTxs(block.Txs)
+		// The transactions which are on the current fork too are not pending. The miner does not check the pool's txs again
+		currentHash := dp.CurrentBlock().Hash()
+		otherForkTxs := make(types.Transactions, 0, len(block.Txs))
+		for _, tx := range block.Txs {
+			if !dp.txGuard.ExistTx(currentHash, tx) {
+				otherForkTxs = append(otherForkTxs, tx)
+			}
+		}
+		dp.txPool.AddTxs(otherForkTxs)
 	}
 
 	// 如果是出现了新的稳定块
